@@ -2,3 +2,4 @@ import MeddlyModel.Basic.Val
 import MeddlyModel.Basic.Report
 import MeddlyModel.Core.DD
 import MeddlyModel.Core.Canon
+import MeddlyModel.Core.Dump
